@@ -25,6 +25,7 @@ std::map<std::string, sg4::ActorPtr> actors;
 std::map<std::string, std::string> opts;
 std::map<long, std::string> pid2aid;
 std::map<std::string, CurOp> curop;
+std::set<long> deadpids;
 bool parallel_ctx = false;
 
 void emit(const char* fmt, ...)
@@ -281,10 +282,10 @@ sg4::ActorPtr spawn(const std::string& id)
   auto a          = sg4::Actor::init(aid, hosts.at(sp.host));
   if (sp.stack > 0)
     a->set_stacksize(sp.stack);
-  if (sp.autorestart)
-    a->set_auto_restart(true);
   ActorSpec* spp = &sp;
   a->start([spp, aid]() { actor_body(spp, aid); });
+  if (sp.autorestart)
+    a->set_auto_restart(true); // after start(): the restart arguments are captured from the running actor
   pid2aid[a->get_pid()] = aid;
   if (sp.killtime >= 0)
     a->set_kill_time(sp.killtime);
@@ -300,10 +301,13 @@ void actor_body(ActorSpec* sp, const std::string& aid)
   actors[sp->id] = self;
   emit("S %ld %a actor_start aid=%s inc=%d pid=%ld host=%s", SEQ++, now(), aid.c_str(), inc, self->get_pid(),
        self->get_host()->get_cname());
-  for (int k = 0; k < sp->onexit; k++)
-    sg4::this_actor::on_exit([aid, inc, k](bool failed) {
-      emit("S %ld %a on_exit aid=%s inc=%d k=%d failed=%d", SEQ++, now(), aid.c_str(), inc, k, (int)failed);
+  for (int k = 0; k < sp->onexit; k++) {
+    long mypid = self->get_pid();
+    sg4::this_actor::on_exit([aid, inc, k, mypid](bool failed) {
+      emit("S %ld %a on_exit aid=%s inc=%d k=%d failed=%d regpid=%ld", SEQ++, now(), aid.c_str(), inc, k, (int)failed, mypid);
     });
+    emit("S %ld %a on_exit_registered aid=%s inc=%d k=%d regpid=%ld", SEQ++, now(), aid.c_str(), inc, k, mypid);
+  }
   if (sp->daemon)
     self->daemonize();
   Ctx c{sp, aid, inc, self};
@@ -338,6 +342,7 @@ static void connect_signals()
   });
   sg4::Engine::on_simulation_end_cb([]() { emit("S %ld %a simulation_end", SEQ++, now()); });
   sg4::Actor::on_termination_cb([](sg4::Actor const& a) {
+    deadpids.insert(a.get_pid());
     emit("S %ld %a actor_term aid=%s pid=%ld", SEQ++, now(), aid_of(const_cast<sg4::Actor*>(&a)).c_str(), a.get_pid());
   });
   sg4::Host::on_onoff_cb(
